@@ -149,6 +149,11 @@ def gen_scenario(rng, n_gc=None, n_veh=None, features=None, steps=None, interval
                 state = "connected"
                 t = dep
     rng.shuffle(ev["vehicle_events"]) if rng.random() < 0.3 else None
+    if rng.random() < 0.4:
+        # dictionary order of the vehicles differs from their sorted-id order
+        items = list(comp["vehicles"].items())
+        rng.shuffle(items)
+        comp["vehicles"] = dict(items)
     return {"scenario": {"start_time": iso(start), "interval": interval, "n_intervals": steps},
             "components": comp, "events": ev, "_features": sorted(feats)}
 
